@@ -105,6 +105,13 @@ def is_array(q):
     return q.rstrip().endswith("]")
 
 
+def pointee_is_arith(q):
+    """`double *`, `const int *restrict`, `double[]` ... : a single-level pointer to numbers"""
+    q = re.sub(r"\[[^\]]*\]\s*$", "*", q.strip())
+    q = re.sub(r"(\*)\s*(?:(?:const|volatile|restrict|__restrict|__restrict__)\s*)+$", r"\1", q)
+    return q.endswith("*") and is_arith(q[:-1])
+
+
 def ptrish(q):
     """may hold (or be) an address: pointers, arrays, structs, unknown typedefs"""
     return not is_arith(q)
@@ -1365,6 +1372,72 @@ class Region:
             return "partitioned", "address depends on " + ", ".join(names)
         return "violation", None
 
+    def _flag_normalisation(self, node, vid, rhs, ctx):
+        r = strip(rhs)
+        if r.get("kind") != "IntegerLiteral":
+            return False
+        try:
+            val = int(r.get("value"))
+        except (TypeError, ValueError):
+            return False
+        for ck, cn, own, exprs in ctx.ctrl:
+            if ck == "switch":
+                c = strip(exprs[0])
+                if not (c.get("kind") == "DeclRefExpr" and c["referencedDecl"]["id"] == vid):
+                    continue
+                body = kids(cn)[1] if len(kids(cn)) > 1 else None
+                if body is None or body.get("kind") != "CompoundStmt":
+                    continue
+                labels = []
+                cur = None
+                found = None
+                for ch in kids(body):
+                    x = ch
+                    while x.get("kind") in ("CaseStmt", "DefaultStmt"):
+                        if x["kind"] == "DefaultStmt":
+                            cur = "default"
+                        else:
+                            lit = strip(kids(x)[0])
+                            try:
+                                cur = int(lit.get("value")) if lit.get("kind") == "IntegerLiteral" else "?"
+                            except (TypeError, ValueError):
+                                cur = "?"
+                        labels.append(cur)
+                        x = kids(x)[-1]
+                    if found is None and any(y is node for y in pwalk(ch)):
+                        found = cur
+                if found is None or found == "?":
+                    continue
+                if found == "default":
+                    if 0 in labels and "?" not in labels:
+                        return val != 0       # default of a switch that has `case 0`: v is non-zero here
+                    continue
+                return (val != 0) == (found != 0)
+            if ck != "if":
+                continue
+            c = strip(exprs[0])
+            truth = None   # truth value of v on the then-branch
+            if c.get("kind") == "DeclRefExpr" and c["referencedDecl"]["id"] == vid:
+                truth = True
+            elif c.get("kind") == "UnaryOperator" and c.get("opcode") == "!":
+                x = strip(kids(c)[0])
+                if x.get("kind") == "DeclRefExpr" and x["referencedDecl"]["id"] == vid:
+                    truth = False
+            elif c.get("kind") == "BinaryOperator" and c.get("opcode") in ("!=", "=="):
+                a, b = (strip(x) for x in kids(c))
+                for x, y in ((a, b), (b, a)):
+                    if x.get("kind") == "DeclRefExpr" and x["referencedDecl"]["id"] == vid \
+                            and y.get("kind") == "IntegerLiteral" and str(y.get("value")) == "0":
+                        truth = c["opcode"] == "!="
+            if truth is None:
+                continue
+            branches = kids(cn)[1:]
+            for bi, br in enumerate(branches[:2]):
+                if any(x is node for x in pwalk(br)):
+                    v_true = truth if bi == 0 else not truth
+                    return (val != 0) == v_true
+        return False
+
     def _thread_selective_guard(self, ctx):
         """an enclosing `if (x == y)` / `if (x != y)` with exactly one thread-dependent side, or a switch
         on a thread-dependent value, selects (at most) one thread or iteration: not a definite race"""
@@ -1388,14 +1461,16 @@ class Region:
             l = strip(lhs)
             direct = l["referencedDecl"]["id"] if l.get("kind") == "DeclRefExpr" else None
             cls, why = self._decide(lhs, objs, ctx, direct)
-            if cls == "violation" and direct is not None:
+            if cls == "violation" and direct is not None and rhs is not None \
+                    and node.get("kind") == "BinaryOperator" and self._flag_normalisation(node, direct, rhs, ctx):
+                # structural exception (independent of names): `if (v) { .. v = <nonzero literal>; } else
+                # { .. v = 0; }` -- every thread stores the constant that agrees with the truth value it has
+                # just tested, so no thread can observe a different truth value before or after
                 key = (f.name, l["referencedDecl"]["name"])
-                # a named exception only covers the shape its reason describes: `if (v) v = <literal>;
-                # else v = <literal>` -- every thread stores the constant selected by the branch it took
-                guarded = any(ck == "if" and direct in self._refs(exprs[0])[0] for ck, _, _, exprs in ctx.ctrl)
-                if key in self.exceptions and rhs is not None and strip(rhs).get("kind") == "IntegerLiteral" \
-                        and node.get("kind") == "BinaryOperator" and guarded:
-                    cls, why = "exception", self.exceptions[key]
+                cls = "exception"
+                why = self.exceptions.get(key) or (
+                    "flag normalised to the literal that agrees with the branch of `if (%s)` being executed: "
+                    "every thread stores the same truth value it has just read" % l["referencedDecl"]["name"])
             self.items.append(Item(kind="store", node=node, expr=lhs, cls=cls, why=why,
                                    base=self._base_name(lhs), objs=objs, line=self.tu.line_of(node),
                                    text=self.tu.text_of(node), ctx=ctx, phase=self.phase_of.get(id(node), 0),
@@ -1497,9 +1572,7 @@ class Region:
         if not is_arith(qt(e)):
             return False
         if o[0] == "param":
-            q = qt(self.func.params[o[1]]).strip()
-            q = re.sub(r"\[[^\]]*\]$", "*", q)
-            return q.endswith("*") and is_arith(q[:-1])
+            return pointee_is_arith(qt(self.func.params[o[1]]))
         if o[0] == "alloc":
             return self._sig(e) is None
         return False
@@ -1541,7 +1614,8 @@ class Region:
         return p == q or (p, q) in self.mhp or (q, p) in self.mhp
 
     def _same_partition(self, lw, lr, cw, cr):
-        """both accesses stay inside the executing thread's own share of the object"""
+        """both accesses stay inside the executing thread's own share of the object.
+        -> False | True | "static" (two different loops with the same schedule(static) distribution)"""
         if TID in lw and TID in lr:
             return True
         if (lw & lr) - {TID}:
@@ -1554,7 +1628,7 @@ class Region:
             lb = [l for l in cr.ws if l.id in wr]
             if la and lb and la[0].pragma.schedule_kind() == "static" and lb[0].pragma.schedule_kind() == "static" \
                     and la[0].pragma.collapse() == lb[0].pragma.collapse():
-                return True
+                return "static"
         return False
 
     def _excluded_pair(self, cw, cr):
@@ -1579,8 +1653,7 @@ class Region:
                 wexpr = it.expr
                 if it.kind == "call":
                     # the callee writes *arg: judge the pointee type of the argument
-                    t = qt(it.expr).strip()
-                    if not (t.endswith("*") and is_arith(t[:-1])) or o[0] in ("var", "global") and \
+                    if not pointee_is_arith(qt(it.expr)) or o[0] in ("var", "global") and \
                             strip(it.expr).get("kind") == "DeclRefExpr" and not is_array(qt(strip(it.expr))):
                         continue
                 elif not self._flat_access(o, wexpr):
@@ -1594,7 +1667,8 @@ class Region:
         def pair(kind, wit, wl, wsig, rnode, rctx, rphase, rl, rsig, o, rtext, rline, r_is_call=False):
             if (wsig is None) != (rsig is None) or (wsig is not None and wsig != rsig):
                 return
-            if self._same_partition(wl, rl, wit.ctx, rctx) or self._excluded_pair(wit.ctx, rctx):
+            same = self._same_partition(wl, rl, wit.ctx, rctx)
+            if same is True or self._excluded_pair(wit.ctx, rctx):
                 return
             # do the two accesses overlap?  share/sweep extents of one object are assumed to; a fixed
             # element only conflicts with the textually identical fixed element
@@ -1605,7 +1679,9 @@ class Region:
                 if not (xw == xr and wtext == rtext):
                     return
             key = (kind, o, wit.base, rtext)
-            if not self._mhp(wit.phase, rphase):
+            if same == "static" or not self._mhp(wit.phase, rphase):
+                # the dependence is an instance whether it is discharged by a barrier or by the identical
+                # static distribution of the two loops (making schedule(static) explicit changes no count)
                 ordered.add((kind, self._describe({o}), wit.base, rtext))
                 return
             if key in seen:
@@ -1826,36 +1902,103 @@ def analyse_regions(prog, rels, exceptions=None):
 # ----------------------------------------------------------------------------
 # function pointers passed from Python (ctypes)
 # ----------------------------------------------------------------------------
-def _getattr_target(v):
-    """getattr(libX, "NAME") or libX.NAME -> (lib, NAME)"""
-    if isinstance(v, ast.Call) and isinstance(v.func, ast.Name) and v.func.id == "getattr" and len(v.args) == 2 \
-            and isinstance(v.args[0], ast.Name) and isinstance(v.args[1], ast.Constant) \
-            and isinstance(v.args[1].value, str):
-        return v.args[0].id, v.args[1].value
-    if isinstance(v, ast.Attribute) and isinstance(v.value, ast.Name) and v.value.id.startswith("lib"):
-        return v.value.id, v.attr
+def _str_values(node, env, depth=0):
+    """string constants an expression may evaluate to: literal, name bound to literals (function-local or
+    module-level), subscript / .get() of a dict literal, conditional expression.  None = not resolvable."""
+    if depth > 6:
+        return None
+    if isinstance(node, ast.Constant):
+        return {node.value} if isinstance(node.value, str) else None
+    if isinstance(node, ast.Name):
+        out = set()
+        vals = env.get(node.id)
+        if not vals:
+            return None
+        for v in vals:
+            r = _str_values(v, env, depth + 1)
+            if r is None:
+                return None
+            out |= r
+        return out
+    if isinstance(node, ast.IfExp):
+        a, b = _str_values(node.body, env, depth + 1), _str_values(node.orelse, env, depth + 1)
+        return None if a is None or b is None else a | b
+    d = None
+    if isinstance(node, ast.Subscript):
+        d = node.value
+    elif isinstance(node, ast.Call) and isinstance(node.func, ast.Attribute) and node.func.attr == "get" and node.args:
+        d = node.func.value
+    if d is not None:
+        tables = [d] if isinstance(d, ast.Dict) else (env.get(d.id, []) if isinstance(d, ast.Name) else [])
+        out = set()
+        for t in tables:
+            if not isinstance(t, ast.Dict):
+                return None
+            for v in t.values:
+                for leaf in (v.elts if isinstance(v, (ast.Tuple, ast.List)) else [v]):
+                    r = _str_values(leaf, env, depth + 1)
+                    if r is None:
+                        return None
+                    out |= r
+        return out or None
     return None
+
+
+def _getattr_targets(v, env):
+    """getattr(libX, <name expr>) or libX.NAME -> set((lib, NAME)) or None"""
+    if isinstance(v, ast.Call) and isinstance(v.func, ast.Name) and v.func.id == "getattr" and len(v.args) >= 2 \
+            and isinstance(v.args[0], ast.Name):
+        names = _str_values(v.args[1], env)
+        if names:
+            return {(v.args[0].id, n) for n in names}
+        return None
+    if isinstance(v, ast.Attribute) and isinstance(v.value, ast.Name) and v.value.id.startswith("lib"):
+        return {(v.value.id, v.attr)}
+    return None
+
+
+def _bindings(scope_nodes):
+    env = {}
+    for n in scope_nodes:
+        if isinstance(n, ast.Assign):
+            for t in n.targets:
+                if isinstance(t, ast.Name):
+                    env.setdefault(t.id, []).append(n.value)
+        elif isinstance(n, ast.AnnAssign) and isinstance(n.target, ast.Name) and n.value is not None:
+            env.setdefault(n.target.id, []).append(n.value)
+    return env
 
 
 def read_py_callbacks(tree, py_rels):
     """Read, off the Python call sites, which C functions are passed as function pointers to which
-    driver: {(driver lib, driver name, arg position): set((lib, name))}.  A driver is a name bound to
-    getattr(lib, "X") (or lib.X) that is called with at least one argument itself bound that way."""
+    driver: {(driver lib, driver name, arg position): set((lib, name))}.  A driver is `lib.X` /
+    `getattr(lib, "X")` (possibly through a local name, a name bound to string literals, or a dict of
+    names) that is called with at least one argument which is itself such a library function."""
     table = {}
     sites = 0
     for rel in py_rels:
         if not tree.exists(rel):
             raise AnalysisError("anchored Python file %s vanished" % rel)
         mod = tree.py(rel)
+        menv = _bindings(mod.body)
         for fn in ast.walk(mod):
             if not isinstance(fn, (ast.FunctionDef, ast.AsyncFunctionDef)):
                 continue
+            env = dict(menv)
+            for k, v in _bindings(ast.walk(fn)).items():
+                env[k] = v   # function-local bindings shadow module-level ones
             bind = {}
-            for n in ast.walk(fn):
-                if isinstance(n, ast.Assign) and len(n.targets) == 1 and isinstance(n.targets[0], ast.Name):
-                    t = _getattr_target(n.value)
-                    if t is not None:
-                        bind.setdefault(n.targets[0].id, set()).add(t)
+            for name, vals in env.items():
+                for v in vals:
+                    t = _getattr_targets(v, env)
+                    if t:
+                        bind.setdefault(name, set()).update(t)
+
+            def passed_of(a):
+                if isinstance(a, ast.Name) and a.id in bind:
+                    return bind[a.id]
+                return _getattr_targets(a, env)
+
             for n in ast.walk(fn):
                 if not isinstance(n, ast.Call):
                     continue
@@ -1863,17 +2006,17 @@ def read_py_callbacks(tree, py_rels):
                 if isinstance(n.func, ast.Name) and n.func.id in bind:
                     drv = bind[n.func.id]
                 else:
-                    t = _getattr_target(n.func)
-                    if t is not None:
-                        drv = {t}
+                    drv = _getattr_targets(n.func, env)
                 if not drv:
                     continue
-                for i, a in enumerate(n.args):
-                    if isinstance(a, ast.Name) and a.id in bind:
-                        passed = bind[a.id]
-                    elif _getattr_target(a) is not None:
-                        passed = {_getattr_target(a)}
-                    else:
+                args = list(n.args)
+                if len(args) == 1 and isinstance(args[0], ast.Starred) and isinstance(args[0].value, ast.Name):
+                    lists = [v for v in env.get(args[0].value.id, []) if isinstance(v, (ast.List, ast.Tuple))]
+                    if len(lists) == 1:
+                        args = list(lists[0].elts)
+                for i, a in enumerate(args):
+                    passed = passed_of(a)
+                    if not passed:
                         continue
                     for d in drv:
                         table.setdefault((d[0], d[1], i), set()).update(passed)
